@@ -14,7 +14,7 @@ pub fn prop() -> Prop {
     Prop {
         id: "C07",
         level: "exploration",
-        rule: "(1) every expression tree of depth <= D over the 13 infix operators and `=` with leaves {a, 1} printed with minimal parentheses from the documented precedence table; (2) calls, indexing and prefix operators in every operand position of every operator; (2b) `als`, `zolang` and `functie` expressions without parentheses as the left and right operand of every operator and (function literals) as the target of a call, in 16 statement and expression contexts (an expression does not end at its closing brace); (3) every statement tree of the ctrl/fun/mix/heap slices up to N nodes, plain and with `anders als` / `op=` sugar; (4) every `a op= e` for e of depth <= 2 and every else-if chain up to length 3; (5) layout: for a base set of programs every rendering that changes <= d gaps to each alternative separator (each of the 11 white-space code points, a line comment, nothing where maximal munch allows, optional `;` and `,` dropped) and every single redundant parenthesisation. Oracle: the tree returned by the real parser equals the generated tree. Non-trivial = the rendering differs from the default rendering of a smaller case or contains at least two operators/constructs; distinct = distinct texts",
+        rule: "(1) every expression tree of depth <= D over the 13 infix operators and `=` with leaves {a, 1} printed with minimal parentheses from the documented precedence table; (2) calls, indexing and prefix operators in every operand position of every operator; (2b) `als`, `zolang` and `functie` expressions without parentheses as the left and right operand of every operator and (function literals) as the target of a call, in 16 statement and expression contexts (an expression does not end at its closing brace); (2c) length ladders: chains of N operands (one operator; two alternating levels), N elements / arguments / statements, N-deep parentheses, prefix operators, parenthesised assignments and else-if chains, N around every power of two up to 1025 (8193 thorough; deep forms up to 300); (3) every statement tree of the ctrl/fun/mix/heap slices up to N nodes, plain and with `anders als` / `op=` sugar; (4) every `a op= e` for e of depth <= 2 and every else-if chain up to length 3; (5) layout: for a base set of programs every rendering that changes <= d gaps to each alternative separator (each of the 11 white-space code points, a line comment, nothing where maximal munch allows, optional `;` and `,` dropped) and every single redundant parenthesisation. Oracle: the tree returned by the real parser equals the generated tree. Non-trivial = the rendering differs from the default rendering of a smaller case or contains at least two operators/constructs; distinct = distinct texts",
         assumptions: &[
             "the printer's precedence table (printer::prec) is the documented one: * / % > + - > < <= > >= > == != > && || > =",
             "prefix operands are always parenthesised unless atomic (U13)",
@@ -418,6 +418,7 @@ fn run(sh: &mut Shard) {
     // operator and as the target of a call / an index, in every statement and expression context: an
     // expression does not end at its closing brace
     compound_operand_family(sh);
+    chain_ladder(sh);
     // (4) op-assign sugar and else-if chains
     let mut sugar_ops = ARITH_OPS.to_vec();
     sugar_ops.extend(CMP_OPS.iter().cloned());
@@ -500,6 +501,108 @@ fn run(sh: &mut Shard) {
             }
             sh.running()
         });
+    }
+}
+
+/// Length ladders: operator chains of N operands (one operator; two alternating levels; right-nested
+/// assignments), N array elements, N call arguments, N statements, N-deep parentheses / prefix operators /
+/// else-if chains, N around every power of two; the expected tree is built from the precedence table.
+/// Like `case`, for texts that may exceed the parser's nesting limit (500 levels of tree depth): a refusal is
+/// accepted there, a different tree never is.
+fn case_or_too_deep(sh: &mut Shard, family: &str, text: &str, tree: &[Stmt], may_refuse: bool) {
+    if !may_refuse {
+        return case(sh, family, text, tree, true);
+    }
+    if !sh.mine() {
+        return;
+    }
+    let t = text.to_string();
+    sh.begin(&|| t.clone());
+    sh.count(&format!("family:{family}"));
+    match parse_guarded(text) {
+        Parsed::Err(_) => sh.count("chain-ladder-refused-as-too-deep"),
+        _ => {
+            sh.nontrivial(text);
+            check_text(sh, family, text, tree)
+        }
+    }
+}
+
+fn chain_ladder(sh: &mut Shard) {
+    let tier = sh.cfg.tier;
+    let kmax = if tier == Tier::Quick { 10 } else { 13 };
+    let mut lens: Vec<usize> = vec![2, 3, 5, 6, 10, 100];
+    for k in 2..=kmax {
+        let n = 1usize << k;
+        lens.extend([n - 1, n, n + 1]);
+    }
+    lens.sort();
+    lens.dedup();
+    let operand = |i: usize| if i % 3 == 2 { int(i as i64) } else { id(["a", "b"][i % 2]) };
+    let operand_text = |i: usize| if i % 3 == 2 { i.to_string() } else { ["a", "b"][i % 2].to_string() };
+    for n in lens {
+        // one operator, left-associative
+        for op in [Operator::Subtract, Operator::Divide, Operator::Lt, Operator::Eq, Operator::And] {
+            let mut tree = operand(0);
+            let mut text = operand_text(0);
+            for i in 1..n {
+                tree = infix(tree, op.clone(), operand(i));
+                text.push_str(&format!(" {} {}", opname(&op), operand_text(i)));
+            }
+            case_or_too_deep(sh, "chain-ladder", &text, &[es(tree)], n > 480);
+        }
+        // two alternating levels: a - b * 2 - a * b ...: products group first, the sum is left-associative
+        {
+            let mut text = String::new();
+            let mut tree: Option<Expr> = None;
+            let mut i = 0;
+            while i + 1 < n.max(2) {
+                let prod = infix(operand(i), Operator::Multiply, operand(i + 1));
+                let pt = format!("{} * {}", operand_text(i), operand_text(i + 1));
+                tree = Some(match tree {
+                    None => prod,
+                    Some(t) => infix(t, Operator::Subtract, prod),
+                });
+                if !text.is_empty() {
+                    text.push_str(" - ");
+                }
+                text.push_str(&pt);
+                i += 2;
+            }
+            case_or_too_deep(sh, "chain-ladder", &text, &[es(tree.unwrap())], n > 900);
+        }
+        // wide: array elements, call arguments (<= 255), statements
+        let elems: Vec<Expr> = (0..n).map(operand).collect();
+        let etext: Vec<String> = (0..n).map(operand_text).collect();
+        case(sh, "chain-ladder", &format!("[ {} ]", etext.join(" , ")), &[es(array(elems.clone()))], true);
+        case(sh, "chain-ladder", &format!("[ {} ]", etext.join(" ")), &[es(array(elems.clone()))], true);
+        if n <= 255 {
+            case(sh, "chain-ladder", &format!("f ( {} )", etext.join(" , ")), &[es(calln("f", elems.clone()))], true);
+        }
+        let stmts: Vec<Stmt> = elems.iter().cloned().map(es).collect();
+        case(sh, "chain-ladder", &etext.join(" ; "), &stmts, true);
+        case(sh, "chain-ladder", &format!("{{ {} }}", etext.join(" ; ")), &[Stmt::Block(stmts.clone())], true);
+        // deep (inside the parser's nesting limit)
+        if n <= 300 {
+            case_or_too_deep(sh, "chain-ladder", &format!("{}a{}", "( ".repeat(n), " )".repeat(n)), &[es(id("a"))], n > 240);
+            let mut t = id("a");
+            let mut rt = id("a");
+            for _ in 0..n {
+                t = prefix(Operator::Not, t);
+                rt = assign(id("b"), rt);
+            }
+            case_or_too_deep(sh, "chain-ladder", &format!("{}a", "! ".repeat(n)), &[es(t)], n > 240);
+            // (the right side of `=` is parsed above the level of `=`: a nested assignment needs its parentheses)
+            case_or_too_deep(sh, "chain-ladder", &format!("{}a{}", "b = ( ".repeat(n), " )".repeat(n)), &[es(rt)], n > 120);
+            // else-if chain of n links
+            let mut e = iff(id("a"), vec![es(int(n as i64))], None);
+            let mut text = format!("als a {{ {n} }}");
+            for k in (0..n).rev() {
+                e = iff(id("b"), vec![es(int(k as i64))], Some(vec![es(e)]));
+                text = format!("als b {{ {k} }} anders {text}");
+            }
+            case_or_too_deep(sh, "chain-ladder", &text, &[es(e)], n > 120);
+        }
     }
 }
 
@@ -636,7 +739,7 @@ fn vacuity(m: &Merged) -> Option<String> {
             }
         }
     }
-    for fam in ["trees", "postfix", "compound-operand", "op-assign", "else-if", "layout-1", "parens-1", "slice-ctrl", "slice-fun"] {
+    for fam in ["trees", "postfix", "compound-operand", "chain-ladder", "op-assign", "else-if", "layout-1", "parens-1", "slice-ctrl", "slice-fun"] {
         if m.counters.get(&format!("family:{fam}")).copied().unwrap_or(0) == 0 {
             return Some(format!("family {fam} produced no case"));
         }
